@@ -42,10 +42,11 @@ def run(chk, replay=None):
         # ---- recorded programs -> trace validation
         trace, res = os.path.join(d, "trace.ndjson"), os.path.join(d, "rec.res")
         vlib.run_harness("c01.record", None, res, {"trace": trace, "traces": 40 if tier == "quick" else 400,
-                                                    "maxbytes": 400 if tier == "quick" else 1500, "seed": chk.seed})
+                                                    "maxbytes": 400 if tier == "quick" else 1500, "seed": chk.seed,
+                                                    "longmax": 0 if tier == "quick" else 1})
         chk.ingest_results(res, part="record")
         vlib.validate_trace(chk, "TraceMD4", cfg("C01_trace.cfg"), trace, "trace_validation",
-                            lambda e: "md4.MD4." + {"sum": "Sum", "write": "Write"}.get(e.get("op"), "?"),
+                            lambda e: "md4.MD4." + {"sum": "Sum", "write": "Write", "ext": "Sum:long-message"}.get(e.get("op"), "?"),
                             aspect="trace-rejected")
         # ---- concrete mirror + vacuity guard (thorough)
         if tier == "thorough":
